@@ -74,3 +74,16 @@ package ipfshttp
 //@   ensures [one-request] !ipfs.config.UnpinDisable ==> postN == old(postN) + 1
 //@   ensures [success-or-not-pinned] err == nil ==> postOK == old(postOK) + 1 || (ok && (ipfsErr.Message == libfn("errors.errorString.Error", 0, dspinner.ErrNotPinned) || true))
 //@   modifies postN, postOK
+
+// ---- C15: the section's saved form: every setting is written from the field of the same name ----
+//@ func (cfg *Config) toJSONConfig
+//@   property C15
+//@   requires cfg != nil
+//@   ensures [node-multiaddress] err == nil ==> jcfg != nil && jcfg.NodeMultiaddress == cfg.NodeAddr.String()
+//@   ensures [connect-swarms-delay] err == nil ==> jcfg.ConnectSwarmsDelay == cfg.ConnectSwarmsDelay.String()
+//@   ensures [ipfs-request-timeout] err == nil ==> jcfg.IPFSRequestTimeout == cfg.IPFSRequestTimeout.String()
+//@   ensures [pin-timeout] err == nil ==> jcfg.PinTimeout == cfg.PinTimeout.String()
+//@   ensures [unpin-timeout] err == nil ==> jcfg.UnpinTimeout == cfg.UnpinTimeout.String()
+//@   ensures [repogc-timeout] err == nil ==> jcfg.RepoGCTimeout == cfg.RepoGCTimeout.String()
+//@   ensures [unpin-disable] err == nil ==> jcfg.UnpinDisable == cfg.UnpinDisable
+//@   modifies nothing
